@@ -108,8 +108,12 @@ class SimLoop(asyncio.BaseEventLoop):
 
         if not self._ready and not self._stopping:
             nt = self.next_timer()
-            if nt is None:
+            if nt is None and ctl is not None:
+                ctl.on_stuck()
+                nt = self.next_timer()
+            if nt is None and not self._ready and not self._stopping:
                 raise SimDeadlock("no ready handle, no timer, controller idle")
+        if not self._ready and not self._stopping:
             if nt > self._vtime:
                 self._vtime = nt
 
